@@ -55,6 +55,7 @@ CLASSES = [
     "migrate_v0", "migrate_v1", "custom_ws", "nested_ws", "collision_raises",
     "nondefault_name", "with_cache", "with_history",
     "idempotent_second_run", "uptodate_noop", "random_name", "config_replaced_same_size_and_mtime",
+    "path_rel", "path_dot", "path_pathlike",
 ]
 ASSUMPTIONS = [
     "legacy projects are those signac 1.x could write: signac.rc holding project=<name>, optional relative "
@@ -96,6 +97,7 @@ WS_OPTIONS = [  # (workspace_dir value, unrelated workspace/ exists)
 ]
 REF_VERSIONS = [None, "0", "1", "3", "10"]
 ENTRIES = ["Project", "get_project", "get_project_subdir", "get_project_jobdir", "get_project_nosearch", "init_project"]
+DIRECT_ENTRIES = ("Project", "get_project", "get_project_nosearch", "init_project")  # take the project directory itself
 
 
 def _jobs(n, k):
@@ -178,13 +180,57 @@ def _build_legacy(root, case):
     return True, built
 
 
-def _migrate(root):
+FORMS = ("rel", "dot", "pathlike")
+
+
+@contextlib.contextmanager
+def _path_form(root, form, ctx):
+    """How the caller names the project directory: absolute str (default), relative to the working directory
+    ('rel': its base name, 'dot': '.'), or an os.PathLike object. For the relative forms the same spelling has
+    named ANOTHER, up-to-date project earlier in this process under another working directory."""
+    import pathlib
+
+    import signac
+    from signac.migration import apply_migrations
+
+    cwd = os.getcwd()
+    decoy_base = None
+    try:
+        if form in (None, "abs"):
+            yield root
+        elif form == "pathlike":
+            yield pathlib.Path(root)
+        else:
+            rel = "." if form == "dot" else os.path.basename(root)
+            decoy_base = ctx.tmpdir("c20d")
+            decoy = decoy_base if form == "dot" else os.path.join(decoy_base, rel)
+            os.makedirs(decoy, exist_ok=True)
+            try:
+                signac.init_project(decoy)
+                os.chdir(decoy if form == "dot" else decoy_base)
+                signac.Project(rel)
+                signac.get_project(rel, search=False)
+                with contextlib.redirect_stderr(io.StringIO()):
+                    apply_migrations(rel)
+            except Exception as e:
+                raise HarnessError(f"working with the up-to-date decoy project as {rel!r} failed: {type(e).__name__}: {e}")
+            os.chdir(root if form == "dot" else os.path.dirname(root))
+            yield rel
+    finally:
+        os.chdir(cwd)
+        if decoy_base:
+            shutil.rmtree(decoy_base, ignore_errors=True)
+
+
+def _migrate(root, form=None, ctx=None):
     from signac.migration import apply_migrations
 
     err = io.StringIO()
     try:
-        with contextlib.redirect_stderr(err):
-            apply_migrations(root)
+        with contextlib.redirect_stderr(err), _path_form(root, form, ctx) as arg:
+            apply_migrations(arg)
+    except HarnessError:
+        raise
     except Exception as e:  # apply_migrations documents RuntimeError; anything is reported by the caller
         return e
     return None
@@ -365,7 +411,10 @@ def _run_migrate(case, ctx):
         nontrivial = bool(("custom_ws" in cl or "nondefault_name" in cl) and has_files)
 
         before = fsutil.snapshot(root)
-        r1 = _migrate(root)
+        form = case.get("form")
+        if form:
+            cl.add("path_" + form)
+        r1 = _migrate(root, form, ctx)
         if case.get("collide") and ws not in (None, "workspace"):
             cl.add("collision_raises")
             after = fsutil.snapshot(root)
@@ -382,7 +431,7 @@ def _run_migrate(case, ctx):
                 os.rename(os.path.join(root, "workspace"), os.path.join(root, MOVED_AWAY))
                 _refused_untouched(root, mms, "collision_recovery", "after the failed migration")
                 before = fsutil.snapshot(root)
-                r1 = _migrate(root)
+                r1 = _migrate(root, form, ctx)
                 if r1 is not None:
                     mms.append(Mismatch("collision_recovery", f"migration still fails after the colliding workspace/ was moved away: {_exc(r1)}"))
                 else:
@@ -457,22 +506,28 @@ def _run_refuse(case, ctx):
         os.makedirs(os.path.join(root, "sub", "deeper"))
         _write(os.path.join(root, "notes.txt"), "user file\n")
         jobdir = os.path.join(root, wsrel, sorted(built)[0]) if built else os.path.join(root, "sub")
+        form = case.get("form") if entry in DIRECT_ENTRIES else None
+        if form:
+            cl.add("path_" + form)
         call = {
-            "Project": lambda: signac.Project(root),
-            "get_project": lambda: signac.get_project(root),
-            "get_project_subdir": lambda: signac.get_project(os.path.join(root, "sub", "deeper")),
-            "get_project_jobdir": lambda: signac.get_project(jobdir),
-            "get_project_nosearch": lambda: signac.get_project(root, search=False),
-            "init_project": lambda: signac.init_project(root),
+            "Project": lambda arg: signac.Project(arg),
+            "get_project": lambda arg: signac.get_project(arg),
+            "get_project_subdir": lambda arg: signac.get_project(os.path.join(root, "sub", "deeper")),
+            "get_project_jobdir": lambda arg: signac.get_project(jobdir),
+            "get_project_nosearch": lambda arg: signac.get_project(arg, search=False),
+            "init_project": lambda arg: signac.init_project(arg),
         }[entry]
         accepted = (IncompatibleSchemaVersion,)
         if entry == "get_project_nosearch" and layout == "legacy":
             accepted = (IncompatibleSchemaVersion, LookupError)
         before = fsutil.snapshot(root)
-        what = f"{entry} on {layout} layout declaring schema_version={version!r} ({len(built)} jobs)"
+        what = f"{entry} on {layout} layout declaring schema_version={version!r} ({len(built)} jobs)" + (f", directory given as {form}" if form else "")
         try:
-            call()
+            with _path_form(root, form, ctx) as arg:
+                call(arg)
             mms.append(Mismatch("refuse_not_raised", f"{what} returned a project"))
+        except HarnessError:
+            raise
         except accepted:
             pass
         except Exception as ex:
@@ -508,7 +563,7 @@ def _run_uptodate(case, ctx):
         del project
         before = fsutil.snapshot(root)
         for k in (1, 2):
-            r = _migrate(root)
+            r = _migrate(root, case.get("form"), ctx)
             after = fsutil.snapshot(root)
             if r is not None:
                 mms.append(Mismatch("uptodate_raised", f"apply_migrations #{k} on an up-to-date project raised {_exc(r)}"))
@@ -521,7 +576,7 @@ def _run_uptodate(case, ctx):
                 mms.append(Mismatch("uptodate_changed", f"up-to-date project has {n} jobs after the no-op migration"))
         except Exception as ex:
             mms.append(Mismatch("uptodate_changed", f"up-to-date project does not open after the no-op migration: {_exc(ex)}"))
-        return {"mismatches": mms, "classes": ["uptodate_noop"], "nontrivial": False}
+        return {"mismatches": mms, "classes": ["uptodate_noop"] + (["path_" + case["form"]] if case.get("form") else []), "nontrivial": False}
     finally:
         shutil.rmtree(root, ignore_errors=True)
 
@@ -548,6 +603,9 @@ def refusal_space():
                 for entry in ENTRIES:
                     for n in range(4):
                         yield {"kind": "refuse", "layout": layout, "ws": ws, "version": version, "entry": entry, "jobs": _jobs(n, i)}
+                        if n == 1 and entry in DIRECT_ENTRIES:
+                            for form in FORMS:
+                                yield {"kind": "refuse", "layout": layout, "ws": ws, "version": version, "entry": entry, "jobs": _jobs(n, i), "form": form}
                         if layout == "v2" and n == 1 and version is not None and len(str(version)) == 1:
                             yield {"kind": "refuse", "layout": layout, "ws": ws, "version": version, "entry": entry, "jobs": _jobs(n, i), "was_current": True}
                         i += 1
@@ -564,6 +622,13 @@ def migration_space():
             "pdoc": [None, {"p": 1, "q": {"r": [1, 2]}}, {}][i % 3],
         }
         i += 1
+        if n == 1:
+            for form in FORMS:
+                yield {
+                    "kind": "migrate", "version": version, "name": name, "ws": ws, "collide": collide,
+                    "cache": cache, "history": history, "jobs": _jobs(n, i), "form": form,
+                    "pdoc": [None, {"p": 1, "q": {"r": [1, 2]}}, {}][i % 3],
+                }
         if n == 0 and ws not in (None, "workspace") and not collide:
             # schema version 1 created the workspace lazily: a project without jobs may lack it
             yield {
@@ -578,6 +643,9 @@ def uptodate_space():
     for n in range(6):
         for cache in (False, True):
             yield {"kind": "uptodate", "jobs": _jobs(n, n), "cache": cache, "pdoc": {"p": n} if n % 2 else None}
+            if n in (0, 2):
+                for form in FORMS:
+                    yield {"kind": "uptodate", "jobs": _jobs(n, n), "cache": cache, "pdoc": None, "form": form}
 
 
 REPRESENTATIVES = [
@@ -595,6 +663,14 @@ REPRESENTATIVES = [
     {"kind": "migrate", "version": "1", "name": "None", "ws": "ws", "collide": True, "cache": False, "history": False, "jobs": _jobs(2, 2), "pdoc": {}},
     {"kind": "uptodate", "jobs": _jobs(3, 0), "cache": True, "pdoc": {"p": 1}},
     {"kind": "uptodate", "jobs": [], "cache": False, "pdoc": None},
+    # the directory named relative to the working directory (after the same spelling named another project) / as os.PathLike
+    {"kind": "refuse", "layout": "v2", "ws": None, "version": "3", "entry": "Project", "jobs": _jobs(2, 1), "form": "dot"},
+    {"kind": "refuse", "layout": "legacy", "ws": None, "version": None, "entry": "Project", "jobs": _jobs(1, 1), "form": "rel"},
+    {"kind": "refuse", "layout": "v2", "ws": None, "version": "1", "entry": "get_project_nosearch", "jobs": _jobs(1, 1), "form": "pathlike"},
+    {"kind": "migrate", "version": "1", "name": "None", "ws": "ws", "collide": False, "cache": True, "history": True, "jobs": _jobs(3, 0), "pdoc": {"p": 1}, "form": "rel"},
+    {"kind": "migrate", "version": None, "name": "my project", "ws": "data/ws", "collide": False, "cache": False, "history": False, "jobs": _jobs(2, 0), "pdoc": None, "form": "pathlike"},
+    {"kind": "migrate", "version": "0", "name": "None", "ws": None, "collide": False, "cache": False, "history": False, "jobs": _jobs(2, 0), "pdoc": None, "form": "dot"},
+    {"kind": "uptodate", "jobs": _jobs(2, 0), "cache": True, "pdoc": None, "form": "pathlike"},
 ]
 
 NAME_ALPHABET = string.digits + string.ascii_letters + string.punctuation + " "
